@@ -204,5 +204,106 @@ def _flows_to_ret(f, l):
     return True
 
 
+def _panic_blocks(f):
+    return [bb for bb, t in f.calls() if call_matches(t, r"^core::panicking::|^std::rt::begin_panic|^core::panicking::assert_failed")]
+
+
+def _switch_edges_on(f, pred):
+    """[(switch bb, target bb)] of bool switches whose scrutinee's data dependence satisfies pred(locals, calls, places)."""
+    out = []
+    for bi, b in enumerate(f.blocks):
+        t = b["t"]
+        if t["k"] != "switch" or t.get("oty") != "bool":
+            continue
+        sl = op_place(t["op"])
+        if sl is None:
+            continue
+        locs, cr, places = data_deps(f, sl["l"])
+        if pred(locs | {sl["l"]}, cr, places):
+            for v, tgt in t["tg"]:
+                out.append((bi, tgt))
+            out.append((bi, t["ow"]))
+    return out
+
+
+def rule_refusals(ctx, db):
+    """R4: what is refused, and where. Degenerate parameters and unrepresentable frames are refused at the sender /
+    constructor; bytes and lengths that arrive from the peer or the kernel are never answered with a panic."""
+    R = ctx.rule
+    R("R4", "GUARD", "an empty control buffer is the empty message list (no panic on its length); an empty delimiter is refused at "
+      "construction, so the extractor never sees it; a payload the length field cannot express is refused by the encoder "
+      "instead of being announced with a truncated length")
+    if not any(f.id.startswith("compio_io::") for f in db.fns.values()):
+        return
+    # the constructor the *iterator* uses (role: the CMsgIter constructor reached from AncillaryIter::new)
+    ai = [f for f in db.fns.values() if re.match(r"^compio_io::ancillary::AncillaryIter::<'\w+>::new$", f.name)]
+    ci = []
+    for f in ai:
+        for bb, t in f.calls():
+            for g in db.callee_fns(t, expand_traits=False):
+                if g.self_adt == "compio_io::ancillary::sys::CMsgIter":
+                    ci.append(g)
+    if any(f.id.startswith("compio_io::ancillary::") for f in db.fns.values()):
+        if not ci:
+            ctx.missing("R4", "the CMsgIter constructor used by AncillaryIter::new")
+        for f in ci:
+            pb = _panic_blocks(f)
+            edges = _switch_edges_on(f, lambda locs, cr, places: 2 in locs)          # arg 2 = len
+            len_sw = {s_ for (s_, _t) in edges}
+            bad = []
+            for p in pb:
+                # the switch that decides this panic: the closest switch one of whose edges dominates p
+                cands = []
+                for bi, b in enumerate(f.blocks):
+                    t = b["t"]
+                    if t["k"] != "switch":
+                        continue
+                    tgts = [x for _, x in t["tg"]] + [t["ow"]]
+                    if any((x == p or f.cfg.edge_dominates(bi, x, p)) for x in tgts) and not all((x == p or f.cfg.edge_dominates(bi, x, p)) for x in tgts):
+                        cands.append(bi)
+                nearest = [c for c in cands if all(f.cfg.dominates(o, c) for o in cands)]
+                if nearest and nearest[0] in len_sw:
+                    bad.append(p)
+            none_ret = any(st.get("r", {}).get("k") == "agg" and st["r"].get("var") == "None" for bi, si, st in f.stmts())
+            ctx.ob("R4", "short-control-buffer-is-the-empty-list", not bad and bool(edges) and none_ret,
+                   "CMsgIter::new answers a buffer shorter than one header with an iterator that yields nothing; no panic is "
+                   "decided by the buffer's length", f)
+    ad = [f for f in db.fns.values() if re.match(r"^compio_io::framed::frame::AnyDelimited::<'\w+>::new$", f.name)]
+    if any(f.id.startswith("compio_io::framed::") for f in db.fns.values()):
+        if not ad:
+            ctx.missing("R4", "AnyDelimited::new")
+        for f in ad:
+            pb = _panic_blocks(f)
+            ok = False
+            for cb, ct in calls(f, r"slice::<impl \[T\]>::is_empty$"):
+                from ..util import bool_edges
+                for (sbb, tt, ft) in bool_edges(f, cb):
+                    if tt is not None and any(f.cfg.edge_dominates(sbb, tt, p) or p == tt for p in pb):
+                        ok = True
+            ctx.ob("R4", "empty-delimiter-refused-at-construction", ok,
+                   "AnyDelimited::new panics for an empty delimiter (the programmer's mistake) so that `windows(0)` can never "
+                   "panic on bytes received from the peer", f)
+        en = [f for f in db.fns.values() if f.name.endswith("LengthDelimited as compio_io::framed::frame::Framer<B>>::enclose")]
+        if not en:
+            ctx.missing("R4", "LengthDelimited::enclose")
+        for f in en:
+            pb = _panic_blocks(f)
+            def both(locs, cr, places):
+                return any(call_matches(ct, r"buf_len$") for _, ct in cr) and \
+                    any(any(isinstance(e, list) and e[0] == "f" and e[2] == "length_field_len" for e in pl["p"]) for pl in places)
+            edges = _switch_edges_on(f, both)
+            hdr = [bb for bb, _ in calls(f, r"copy_from_slice$|copy_within$")]
+            ok = any(any(f.cfg.edge_dominates(s_, t_, p) or p == t_ for p in pb) for (s_, t_) in edges) and \
+                bool(hdr) and all(any(h in f.cfg.reach_set([s_]) and s_ not in f.cfg.reach_set([h]) for (s_, _t) in edges) for h in hdr)
+            ctx.ob("R4", "unrepresentable-length-refused-by-the-encoder", ok,
+                   "before the header is written the payload length is tested against the width of the length field and an "
+                   "oversized frame panics at the sender (a truncated length would make the receiver split the stream differently)", f)
+
+
+def rules_all(ctx, db):
+    rules(ctx, db)
+    rule_refusals(ctx, db)
+
+
 def check(tier):
-    return engine.run("C13", tier, rules, NOT_DECIDED, [])
+    return engine.run("C13", tier, rules_all, NOT_DECIDED, [])
